@@ -312,6 +312,9 @@ func runC11(e *env) {
 		kinds = strings.Split(ks, ",")
 	}
 	nBundles := 330 * e.scale
+	if e.scale > 1 {
+		nBundles = 110 * e.scale // thorough: five locales, 1100 bundles
+	}
 	opts := progOpts{depth: 2, msgPO: true, jsSafe: true, noLog: true}
 
 	var bundles []*c11Bundle
